@@ -589,7 +589,11 @@ fn template_valid(t: &[Entry]) -> bool {
 pub struct AxisIn<'a> {
     pub name: &'static str,
     pub template: &'a [Entry],
+    /// grid-auto-rows / grid-auto-columns
+    pub autos: &'a [Tr],
     pub gap: Lp,
+    /// the container's border-box size on this axis (error scale of a recomputed content box)
+    pub pct_scale: f32,
     /// content-box size when the container's used size on this axis is its own definite length
     pub definite_inner: Option<f32>,
     /// content-box size used to resolve percentages (None: indefinite)
@@ -668,16 +672,28 @@ pub fn check_axis(a: &AxisIn, checked: &mut [u64; 5]) -> Vec<Verdict> {
     }
     // occupancy per track (0-based over the whole vector)
     let occupied = |k: usize| a.spans.iter().any(|(s, e)| s - 1 <= k && k < e - 1);
-    let collapsed = |k: usize| k >= neg && k < neg + exp && expanded[k - neg].1 && !occupied(k);
+    // sizing functions of every track of the vector: implicit tracks cycle through grid-auto-* (negative ones end on its
+    // last entry), explicit ones are the expanded template
+    let auto_tr = Tr { min: Sf(5, 0), max: Sf(5, 0) };
+    let all: Vec<(Tr, bool)> = (0..n)
+        .map(|k| {
+            if k < neg {
+                let l = a.autos.len();
+                (if l == 0 { auto_tr } else { a.autos[(l - neg % l + k) % l] }, false)
+            } else if k < neg + exp {
+                expanded[k - neg]
+            } else {
+                let l = a.autos.len();
+                (if l == 0 { auto_tr } else { a.autos[(k - neg - exp) % l] }, false)
+            }
+        })
+        .collect();
+    let collapsed = |k: usize| all[k].1 && !occupied(k);
     // number of tracks of this axis that a space distribution may still grow (non-flexible, min != max)
     let growable = (0..n)
         .filter(|k| {
-            if *k >= neg && *k < neg + exp {
-                let t = expanded[*k - neg].0;
-                !collapsed(*k) && t.max.0 != 2 && t.fixed_px().is_none() && !(t.min == t.max && t.min.0 == 1)
-            } else {
-                true // implicit tracks: unknown here, assume growable
-            }
+            let t = all[*k].0;
+            !collapsed(*k) && t.max.0 != 2 && t.fixed_px().is_none() && !(t.min == t.max && t.min.0 == 1)
         })
         .count();
     let spanning = a.spans.iter().filter(|(s, e)| e - s > 1).count();
@@ -693,11 +709,11 @@ pub fn check_axis(a: &AxisIn, checked: &mut [u64; 5]) -> Vec<Verdict> {
         }
     };
     // ---- clause: fixed tracks are exact
-    for k in neg..neg + exp {
+    for k in 0..n {
         if collapsed(k) {
             continue;
         }
-        if let Some(l) = expanded[k - neg].0.fixed_px() {
+        if let Some(l) = all[k].0.fixed_px() {
             checked[1] += 1;
             if info.sizes[k].to_bits() != l.to_bits() && !(info.sizes[k] == l) {
                 dev_known(format!("fixed track {}", k), info.sizes[k], l, &mut out, "fixed");
@@ -723,7 +739,7 @@ pub fn check_axis(a: &AxisIn, checked: &mut [u64; 5]) -> Vec<Verdict> {
             checked[2] += 1;
             // a percentage gap is resolved against the content box as the implementation rounds it; the oracle recomputes
             // the content box from the Layout, which may differ in the last place
-            let same = info.gutters[i] == want || (a.gap.0 == 1 && (info.gutters[i] - want).abs() <= want.abs() * 4.0 * f32::EPSILON);
+            let same = info.gutters[i] == want || (a.gap.0 == 1 && (info.gutters[i] - want).abs() <= (want.abs() + f32::from_bits(a.gap.1).abs() * a.pct_scale) * 8.0 * f32::EPSILON);
             if !same {
                 dev_known(format!("gutter {}", i), info.gutters[i], want, &mut out, "gutter");
             }
@@ -731,8 +747,7 @@ pub fn check_axis(a: &AxisIn, checked: &mut [u64; 5]) -> Vec<Verdict> {
     }
     // ---- clause: fr fill
     if let Some(s) = a.definite_inner {
-        let frs: Vec<(usize, f32)> = (neg..neg + exp).filter(|k| expanded[k - neg].0.max.0 == 2 && !collapsed(*k)).map(|k| (k, expanded[k - neg].0.max.f())).collect();
-        // implicit tracks may be flexible too, but then their factors are unknown here: only explicit fr tracks count
+        let frs: Vec<(usize, f32)> = (0..n).filter(|k| all[*k].0.max.0 == 2 && !collapsed(*k)).map(|k| (k, all[k].0.max.f())).collect();
         let fsum: f64 = frs.iter().map(|(_, f)| *f as f64).sum();
         if fsum >= 1.0 && frs.iter().all(|(_, f)| f.is_finite() && *f >= 0.0) {
             checked[4] += 1;
@@ -831,6 +846,8 @@ pub fn oracle_on(spec: &NodeSpec, avail: Size<AvailableSpace>, checked: &mut [u6
     let s = &spec.style;
     let cols: Vec<Entry> = s.grid_template_columns.iter().map(Entry::of).collect();
     let rows: Vec<Entry> = s.grid_template_rows.iter().map(Entry::of).collect();
+    let auto_cols: Vec<Tr> = s.grid_auto_columns.iter().map(Tr::of).collect();
+    let auto_rows: Vec<Tr> = s.grid_auto_rows.iter().map(Tr::of).collect();
     let lay = &r.root;
     let scroll_x = if s.overflow.y == taffy::Overflow::Scroll { s.scrollbar_width } else { 0.0 };
     let scroll_y = if s.overflow.x == taffy::Overflow::Scroll { s.scrollbar_width } else { 0.0 };
@@ -848,13 +865,13 @@ pub fn oracle_on(spec: &NodeSpec, avail: Size<AvailableSpace>, checked: &mut [u6
     let row_spans = r.info.items.iter().map(|i| (i.row_start as usize, i.row_end as usize)).collect();
     if let Some(g) = lp_of(s.gap.width) {
         out.extend(check_axis(
-            &AxisIn { name: "columns", template: &cols, gap: g, definite_inner: if def_w { Some(inner_w) } else { None }, inner: if def_w { Some(inner_w) } else { None }, info: &r.info.columns, spans: col_spans },
+            &AxisIn { name: "columns", template: &cols, autos: &auto_cols, pct_scale: lay.size.width, gap: g, definite_inner: if def_w { Some(inner_w) } else { None }, inner: if def_w { Some(inner_w) } else { None }, info: &r.info.columns, spans: col_spans },
             checked,
         ));
     }
     if let Some(g) = lp_of(s.gap.height) {
         out.extend(check_axis(
-            &AxisIn { name: "rows", template: &rows, gap: g, definite_inner: if def_h { Some(inner_h) } else { None }, inner: if def_h { Some(inner_h) } else { None }, info: &r.info.rows, spans: row_spans },
+            &AxisIn { name: "rows", template: &rows, autos: &auto_rows, pct_scale: lay.size.height, gap: g, definite_inner: if def_h { Some(inner_h) } else { None }, inner: if def_h { Some(inner_h) } else { None }, info: &r.info.rows, spans: row_spans },
             checked,
         ));
     }
@@ -872,6 +889,10 @@ fn check_offsets(spec: &NodeSpec, r: &Run) -> Vec<Verdict> {
     let inflow: Vec<&NodeSpec> = spec.children.iter().filter(|c| c.style.display != Display::None && c.style.position != Position::Absolute).collect();
     let lays: Vec<&taffy::Layout> = spec.children.iter().zip(r.kids.iter()).filter(|(c, _)| c.style.display != Display::None && c.style.position != Position::Absolute).map(|(_, l)| l).collect();
     if inflow.len() != r.info.items.len() {
+        return out;
+    }
+    // baseline alignment shims every item of a row (11.5.1): positions are then not the track offsets
+    if inflow.iter().any(|c| c.style.align_self == Some(AlignItems::Baseline)) {
         return out;
     }
     let startlike = |a: Option<AlignContent>| matches!(a, None | Some(AlignContent::Start) | Some(AlignContent::FlexStart) | Some(AlignContent::Stretch));
@@ -903,6 +924,79 @@ fn check_offsets(spec: &NodeSpec, r: &Run) -> Vec<Verdict> {
                 out.push(Verdict::Fail("offset", format!("rows: item {} in track {} is at y={} but the tracks and gutters before it end at {}", i, k, got, want)));
             }
         }
+    }
+    out
+}
+
+fn sf_str(s: Sf) -> String {
+    match s.0 {
+        0 => format!("{}px", s.f()),
+        1 => format!("{}%", s.f() * 100.0),
+        2 => format!("{}fr", s.f()),
+        3 => format!("fit-content({}px)", s.f()),
+        4 => format!("fit-content({}%)", s.f() * 100.0),
+        5 => "auto".into(),
+        6 => "min-content".into(),
+        _ => "max-content".into(),
+    }
+}
+fn tr_str(t: &Tr) -> String {
+    if t.min == t.max {
+        sf_str(t.min)
+    } else {
+        format!("minmax({}, {})", sf_str(t.min), sf_str(t.max))
+    }
+}
+fn template_str(t: &[Entry]) -> String {
+    t.iter()
+        .map(|e| {
+            let ts = e.tracks.iter().map(tr_str).collect::<Vec<_>>().join(" ");
+            match e.kind {
+                0 => ts,
+                1 => format!("repeat({}, {})", e.count, ts),
+                2 => format!("repeat(auto-fill, {})", ts),
+                _ => format!("repeat(auto-fit, {})", ts),
+            }
+        })
+        .collect::<Vec<_>>()
+        .join(" ")
+}
+/// Compact CSS-like description of a grid container and its children.
+pub fn describe(spec: &NodeSpec) -> String {
+    let s = &spec.style;
+    let cl = |c: taffy::CompactLength| {
+        if c.is_auto() {
+            "auto".to_string()
+        } else if c.tag() == taffy::CompactLength::PERCENT_TAG {
+            format!("{}%", c.value() * 100.0)
+        } else {
+            format!("{}px", c.value())
+        }
+    };
+    let d = |x: Dimension| cl(x.into_raw());
+    let lp = |x: LengthPercentage| cl(x.into_raw());
+    let lpa = |x: LengthPercentageAuto| cl(x.into_raw());
+    let mut out = format!(
+        "grid {{ size: {} x {}; min: {} x {}; max: {} x {}; box-sizing: {:?}; padding: {} {} {} {}; border: {} {} {} {}; gap: {} {}; overflow: {:?}/{:?} sb {}; aspect: {:?};\n  columns: {};\n  rows: {};\n  auto-columns: {}; auto-rows: {}; flow: {:?}; justify-content: {:?}; align-content: {:?}; justify-items: {:?}; align-items: {:?} }}",
+        d(s.size.width), d(s.size.height), d(s.min_size.width), d(s.min_size.height), d(s.max_size.width), d(s.max_size.height), s.box_sizing,
+        lp(s.padding.left), lp(s.padding.right), lp(s.padding.top), lp(s.padding.bottom),
+        lp(s.border.left), lp(s.border.right), lp(s.border.top), lp(s.border.bottom),
+        lp(s.gap.width), lp(s.gap.height), s.overflow.x, s.overflow.y, s.scrollbar_width, s.aspect_ratio,
+        template_str(&s.grid_template_columns.iter().map(Entry::of).collect::<Vec<_>>()),
+        template_str(&s.grid_template_rows.iter().map(Entry::of).collect::<Vec<_>>()),
+        s.grid_auto_columns.iter().map(|t| tr_str(&Tr::of(t))).collect::<Vec<_>>().join(" "),
+        s.grid_auto_rows.iter().map(|t| tr_str(&Tr::of(t))).collect::<Vec<_>>().join(" "),
+        s.grid_auto_flow, s.justify_content, s.align_content, s.justify_items, s.align_items
+    );
+    for (i, c) in spec.children.iter().enumerate() {
+        let cs = &c.style;
+        out += &format!(
+            "\n  child {}: display {:?} position {:?} size {} x {} min {} x {} max {} x {} margin {} {} {} {} inset {} {} {} {} col {:?} row {:?} align-self {:?} justify-self {:?} aspect {:?} overflow {:?}/{:?} ctx {:?} children {}",
+            i, cs.display, cs.position, d(cs.size.width), d(cs.size.height), d(cs.min_size.width), d(cs.min_size.height), d(cs.max_size.width), d(cs.max_size.height),
+            lpa(cs.margin.left), lpa(cs.margin.right), lpa(cs.margin.top), lpa(cs.margin.bottom),
+            lpa(cs.inset.left), lpa(cs.inset.right), lpa(cs.inset.top), lpa(cs.inset.bottom),
+            cs.grid_column, cs.grid_row, cs.align_self, cs.justify_self, cs.aspect_ratio, cs.overflow.x, cs.overflow.y, c.ctx, c.children.len()
+        );
     }
     out
 }
@@ -1005,7 +1099,10 @@ pub fn main(args: &[String]) {
             } else {
                 gen_oracle(seed, idx as u64)
             };
-            println!("{:#?}\navail={:?}", spec, a);
+            if std::env::var("C09_VERBOSE").is_ok() {
+                println!("{:#?}", spec);
+            }
+            println!("{}\navail={:?}", describe(&spec), a);
             if let Some(r) = run_spec(&spec, a) {
                 println!("{:#?}\nroot={:?}", r.info, r.root);
                 for k in &r.kids {
